@@ -843,6 +843,12 @@ def canon_atom(a):
                     if y[1] == "":
                         return ("empty", _value(strip(x)), eqpos)
                     return ("inlist", (y[1],), _value(strip(x)), eqpos)
+        if p in ("<std::str::Bytes<'_> as std::iter::Iterator>::all", "<std::str::Bytes<'_> as std::iter::Iterator>::any") and len(args) == 2 and args[1][0] in ("closure", "fn"):
+            it = args[0]
+            while it[0] == "var" and len(it) > 2:
+                it = it[2]
+            if it[0] == "call" and it[1] == STR + "bytes":
+                return (p.split("::")[-1], _value(it[2][0]), ("bytes", args[1][1]), pos)
         if p in ("std::iter::Iterator::all", "std::iter::Iterator::any") and len(args) == 2 and args[1][0] in ("closure", "fn"):
             it = args[0]
             while it[0] == "var" and len(it) > 2:
